@@ -15,13 +15,13 @@ import (
 )
 
 type Frame struct {
-	fn    *ssa.Function
-	env   map[ssa.Value]Val
-	block *ssa.BasicBlock
-	idx   int
-	prev  *ssa.BasicBlock
-	call  ssa.Value // instruction in the parent frame that receives the results (nil for engine continuations)
-	kont  Kont      // engine continuation run with the results instead of binding call
+	fn     *ssa.Function
+	env    map[ssa.Value]Val
+	block  *ssa.BasicBlock
+	idx    int
+	prev   *ssa.BasicBlock
+	call   ssa.Value // instruction in the parent frame that receives the results (nil for engine continuations)
+	kont   Kont      // engine continuation run with the results instead of binding call
 	defers []*ssa.Defer
 }
 
@@ -31,6 +31,7 @@ type Kont interface {
 }
 
 type IterState struct {
+	Pos   string // function symbol: position of a key in the enumeration
 	MapID int
 	K     string // (Array Int KSort): enumeration of the domain
 	N     string // number of keys
@@ -130,7 +131,8 @@ func visiblePC(pc []string, group string) []string {
 	out := make([]string, 0, len(pc))
 	for _, p := range pc {
 		g, f := pcEntry(p)
-		if g == "" || g == group || (g == "+" && group != "") {
+		// "~name" groups are soft: also visible to ungrouped obligations (but not to the other groups)
+		if g == "" || g == group || (g == "+" && group != "") || (strings.HasPrefix(g, "~") && group == "") {
 			out = append(out, f)
 		}
 	}
@@ -162,32 +164,33 @@ type Undecided struct{ Fn, Reason string }
 
 // X verifies one function.
 type X struct {
-	lastGroup string // group of the clause evaluated last as a goal (consumed by emit)
-	V        *Verifier
-	fn       *ssa.Function
-	key      string
-	ct       *Contract
-	decls    []string
-	nsym     int
-	nid      int
-	obligs   []*Oblig
-	paths    int
-	entry    *State
-	params   map[string]Val
-	loopOrd  map[*ssa.BasicBlock]int
-	walkIdx  map[ssa.Value]int
-	inlined  map[string]bool
-	externs  map[string]bool
-	assumed  map[string]bool
-	callCnt  map[string]int
-	nameCnt  map[string]int
-	opqNils  map[string]string
+	lastGroup   string // group of the clause evaluated last as a goal (consumed by emit)
+	V           *Verifier
+	fn          *ssa.Function
+	key         string
+	ct          *Contract
+	decls       []string
+	nsym        int
+	nid         int
+	obligs      []*Oblig
+	paths       int
+	entry       *State
+	params      map[string]Val
+	loopOrd     map[*ssa.BasicBlock]int
+	walkIdx     map[ssa.Value]int
+	searchIdx   map[ssa.Value]int
+	inlined     map[string]bool
+	externs     map[string]bool
+	assumed     map[string]bool
+	callCnt     map[string]int
+	nameCnt     map[string]int
+	opqNils     map[string]string
 	junkAuction Val
-	noAbbrev int
-	sorts    map[string]string
-	sums     map[string]*SumFn
-	depth    int
-	maxPaths int
+	noAbbrev    int
+	sorts       map[string]string
+	sums        map[string]*SumFn
+	depth       int
+	maxPaths    int
 }
 
 type unsupported struct{ msg string }
@@ -1771,6 +1774,7 @@ func (x *X) startRange(s *State, i *ssa.Range) {
 		it.N = x.sym("range.n", "Int")
 		it.K = x.sym("range.keys", arrSort("Int", ks))
 		pos := x.declFun("range.pos", []string{ks}, "Int")
+		it.Pos = pos
 		j1, j2, k := x.bound("j", "Int"), x.bound("j", "Int"), x.bound("k", ks)
 		// an arbitrary duplicate-free enumeration of the domain: Go leaves the order unspecified
 		s.assume(fmt.Sprintf("(and (<= 0 %s) (< %s 281474976710656))", it.N, it.N))
@@ -1883,6 +1887,19 @@ func (x *X) checkEnsures(s *State, res []Val) {
 	for _, c := range x.ct.Sets {
 		// ghost assignment at the return: the named ghost variable takes the value of the expression
 		s.ghost[c.LetVar] = x.flat(s, x.newEv(s, evalCtx{results: res, post: true}).eval(c.Expr))
+	}
+	for k, c := range x.ct.Exits {
+		g := x.evalClause(s, c, evalCtx{results: res, post: true, loopHeader: fr.block})
+		name := c.Name
+		if name == "" {
+			name = fmt.Sprintf("exit%d", k)
+		}
+		x.emit(s, "ensures", fmt.Sprintf("%s@b%d", name, fr.block.Index), c.Labels, g, c.Text)
+		if c.Group == "" {
+			s.assumeG("+", g)
+		} else {
+			s.assumeG(c.Group, g)
+		}
 	}
 	for k, c := range x.ct.Ensures {
 		if c.Assumed {
